@@ -27,6 +27,7 @@ func CfgFromEnv(env *drive.Env) Cfg {
 	c.MaxStake = uint64(env.OptInt("maxstake", int(c.MaxStake)))
 	c.WithdrawDelay = uint64(env.OptInt("wdelay", int(c.WithdrawDelay)))
 	c.Pool = int64(env.OptInt("pool", int(c.Pool)))
+	c.GasLimit = uint64(env.OptInt("gaslimit", int(c.GasLimit)))
 	return c
 }
 
